@@ -221,18 +221,21 @@ def _templates(ctx):
 def c08_3(ctx):
     tp = _templates(ctx)
     f = ctx.func(CAPI, "ContractAPI.info_for_script")
-    # (template text, returned dict literal) pairs in info_for_script
+    # (template text, returned dict) pairs: every exit returning {'type': T, field: <blob>}; the template is the one the
+    # blob was matched with (found in the returned value itself, however the function is organised)
     pairs = []
-    body = f.node.body
-    for i, st in enumerate(body):
-        if isinstance(st, ast.Assign) and isinstance(st.value, ast.Call) and df.last_attr(st.value) == "match" and isinstance(st.value.args[0], ast.Constant):
-            tmpl = st.value.args[0].value
-            nxt = body[i + 1] if i + 1 < len(body) else None
-            rets = [r for r in ast.walk(nxt) if isinstance(r, ast.Return)] if nxt is not None else []
-            for r in rets:
-                if isinstance(r.value, ast.Call) and norm(r.value.func) == "dict":
-                    kw = {k.arg: norm(k.value) for k in r.value.keywords}
-                    pairs.append((tmpl, kw))
+    w = sym.walk(ctx, f)
+    for e in w.exits:
+        if e.kind != "return" or not isinstance(e.value, ast.Dict):
+            continue
+        kw = {k.value: norm(v) for k, v in zip(e.value.keys, e.value.values) if isinstance(k, ast.Constant) and isinstance(k.value, str)}
+        tmpls = set()
+        for v in e.value.values:
+            for c in ast.walk(v):
+                if isinstance(c, ast.Call) and df.last_attr(c) == "match" and c.args and isinstance(c.args[0], ast.Constant) and isinstance(c.args[0].value, str):
+                    tmpls.add(c.args[0].value)
+        for tmpl in sorted(tmpls):
+            pairs.append((tmpl, kw))
     want_placeholder = {"p2pkh": ("PUBKEYHASH", "hash160"), "p2sh": ("PUBKEYHASH", "hash160"), "p2pk": ("PUBKEY", "sec"), "p2pkh_wit": ("SEGWIT", "hash160"), "p2sh_wit": ("SEGWIT", "hash256"), "p2tr": ("SYNTHETIC_KEY", "synthetic_key")}
     seen = set()
     for tmpl, kw in pairs:
